@@ -274,6 +274,7 @@ def run(check, an: Analysis):
     c03._check_signal_lifecycles(
         check, an, _scope.wrapper_callee(an), rule='P',
         only=lambda fn, cls: fn.cls is None and fn.module.name == 'usim._primitives.notification')
+    c03.check_own_wakeup_is_fresh(check, an, 'P')
     c15.check_assign_restores(check, an, 'P')
     # ticks are exact: the clock is the start time and then the queued dates as given
     # (no conversion that would put later dates on another number grid)
